@@ -64,7 +64,7 @@ def _gen_t(r):
 
 def gen_case(r, index, tier):
     deep = tier == "thorough"
-    desc = designs.gen_allocation(r, offsets=True, max_cells=16 if deep else 10)
+    desc = designs.gen_allocation(r, offsets=True, max_cells=16 if deep else 10, extreme_scales=True)
     n = r.randint(1, 14 if deep else 8)
     ops = []
     for _ in range(n):
